@@ -1,6 +1,7 @@
 package main
 
 import (
+	"reflect"
 	"go/constant"
 	"golang.org/x/tools/go/ssa"
 	"os"
@@ -388,6 +389,26 @@ func (c *layoutCtx) fieldName(idx int) string {
 	return fmt.Sprintf("#%d", idx)
 }
 
+// promotedName: field `in` of the embedded struct in receiver field o is the message's own field – promoted, with its
+// own wire name.
+func (c *layoutCtx) promotedName(o, in int) (string, bool) {
+	if c.ct == nil || c.ct.Struct == nil || o < 0 || o >= c.ct.Struct.NumFields() || !c.ct.Struct.Field(o).Embedded() {
+		return "", false
+	}
+	est, isS := c.ct.Struct.Field(o).Type().Underlying().(*types.Struct)
+	if !isS || in < 0 || in >= est.NumFields() {
+		return "", false
+	}
+	tag := reflect.StructTag(est.Tag(in)).Get("json")
+	if j := strings.Index(tag, ","); j >= 0 {
+		tag = tag[:j]
+	}
+	if tag == "" || tag == "-" {
+		tag = est.Field(in).Name()
+	}
+	return tag, true
+}
+
 // subject: describes where an encoded value comes from: a receiver field, an
 // element of the current list, or a root parameter (primitive analysis).
 func (c *layoutCtx) subject(v *Val) (name string, idx int, ok bool) {
@@ -407,6 +428,9 @@ func (c *layoutCtx) subject(v *Val) (name string, idx int, ok bool) {
 		// a field of a nested part written inline: named X.#i until the run is recognised as the part's own layout
 		if c.nested == nil {
 			c.nested = map[string][2]int{}
+		}
+		if tag, okE := c.promotedName(o, in); okE {
+			return tag, o, true
 		}
 		name := fmt.Sprintf("%s.#%d", c.fieldName(o), in)
 		c.nested[name] = [2]int{o, in}
@@ -1867,15 +1891,16 @@ func verifyScanGen(loop *Event, W *Val, right bool, bound *Affine, exitConds []C
 			// a second counter that moves in lock-step with the tested one (`start++` beside a range index): the same
 			// variable up to the constant difference of their initial values
 			xs, _ := x.Aux.(int64)
-			xi, okX := x.Args[0].Int64()
-			li, okL := lv.Args[0].Int64()
-			if xs != step || !okX || !okL {
+			// (the distance of their initial values: a constant also when both are symbolic – `end := len(b)` beside
+			// `i := len(b)-1`)
+			dd, okD := affOf(x.Args[0]).Add(affOf(lv.Args[0]), -1).IsConst()
+			if xs != step || !okD {
 				return nil, false
 			}
 			if nx2 := arm.Next[x.Name]; nx2 == nil {
 				return nil, false
 			}
-			bc += xi - li
+			bc += dd
 		} else if x.ID != loop.LoopID || x.Name != lv.Name {
 			return nil, false
 		}
